@@ -4,26 +4,26 @@
 sweep of the given tier: refresh_checks.py --bounds quick|thorough)."""
 import json, sys, subprocess
 ADDED = {
- "C01": "unknown characters include six that Unicode but not CEL counts as white space (U+00A0, U+000B, U+0085, U+2028, U+3000, U+FEFF); ~80k literal extremes (every \\u escape, boundary \\U, numeric literals of every length); visitor-level (semantic) errors in every whitespace layout and embedding; every failing/valid fragment in every argument slot of 35 macro/optional/wrapper templates, two levels deep (semantic-nesting).",
- "C02": "the 289 generated host signatures of C20 as callees (panic-only oracle); host-supplied timestamps at chrono's limits in extreme offsets; dense small values: every ordered pair of all strings / byte strings of length <= 3 over {a,b}, small lists, maps and numbers as literals under 24 binary built-in / operator templates.",
- "C03": "error-precedence family: in 13 n-ary constructs two operands fail with different error classes in every pair of positions (the leftmost needed one wins).",
- "C04": "the fully parenthesised rendering is compared with the exact binary tree (chain balancing is tolerated only for the minimal rendering); chains of 2..4 operands with 1/5/35/71 AST nodes in every combination; nested prefix forms.",
- "C05": "the history alphabet has 32 programs (macros failing mid-loop, macro variables named like context variables, regex and conversion built-ins, equal-shaped temporaries asked the same question, built-in names selected as members without a call); results are also compared with results computed before any history ran and with freshly compiled programs; the thread programs include a 9-deep macro nest.",
+ "C01": "unknown characters include six that Unicode but not CEL counts as white space (U+00A0, U+000B, U+0085, U+2028, U+3000, U+FEFF); ~80k literal extremes (every \\u escape, boundary \\U, numeric literals of every length); visitor-level (semantic) errors in every whitespace layout and embedding; every failing/valid fragment in every argument slot of 35 macro/optional/wrapper templates, two levels deep (semantic-nesting). Also: TAB in the character alphabet and a layout-chars family (tab, CR, LF, 2/3/4-byte characters, #, quote); integer literals at 2^k-1, 2^k, 2^k+1 for 13 k (decimal/hex, signs, suffixes, embeddings); multi-line triple-quoted literals with every rejected escape.",
+ "C02": "the 289 generated host signatures of C20 as callees (panic-only oracle); host-supplied timestamps at chrono's limits in extreme offsets; dense small values: every ordered pair of all strings / byte strings of length <= 3 over {a,b}, small lists, maps and numbers as literals under 24 binary built-in / operator templates. Also: numeric texts (digit runs of 26 lengths up to 1100 x 8 shapes x signs x suffixes) through every text-consuming built-in.",
+ "C03": "error-precedence family: in 13 n-ary constructs two operands fail with different error classes in every pair of positions (the leftmost needed one wins). Also: aliasing family (11 values incl. [NaN], [[NaN]], {'a': NaN} x 16 templates reading one variable several times).",
+ "C04": "the fully parenthesised rendering is compared with the exact binary tree (chain balancing is tolerated only for the minimal rendering); chains of 2..4 operands with 1/5/35/71 AST nodes in every combination; nested prefix forms. Also: every tree with <= 2 operators under every assignment of two names to its leaves (repeated leaves).",
+ "C05": "the history alphabet has 36 programs (macros failing mid-loop, macro variables named like context variables, regex and conversion built-ins, equal-shaped temporaries asked the same question, built-in names selected as members without a call); results are also compared with results computed before any history ran and with freshly compiled programs; the thread programs include a 9-deep macro nest. It also holds same-shaped programs with different literals, the first failing; and membership in equal-shaped temporary lists of eight strings.",
  "C06": "15 contexts (macro bodies of every form, nested macro, list element, map value, call argument, negated, compared, conditional branch); 6 error kinds incl. a call of an undeclared function; a second tree family with the literals true/false as two more leaf kinds (<= 2 operators quick, <= 3 thorough).",
- "C07": "host functions named like operators (`_h`), map/list literals with several entries, inner-macro templates, list-literal indexing.",
+ "C07": "host functions named like operators (`_h`), map/list literals with several entries, inner-macro templates, list-literal indexing. Also: multi-field paths has2 / has2-absent / has3 / select2.",
  "C08": "nested unary minus forms (-(-a), -(-(-a)), 0 - (-a), ...) over the whole int set.",
  "C09": "",
- "C10": "every list-valued macro chained as the range of every macro (same / different variable name); list-literal ranges of observable or variable-reading element expressions (value + visit log, outer name re-read after the macro); constant bodies over lists and maps (variable and literal ranges).",
- "C11": "(A) value pool {1, 1u, 2, null} (equal-but-distinguishable twins; a name bound to null is bound), up to three nested child scopes; (B) two program profiles (ints; twins whose outer bindings equal the iterated elements in another numeric type), names read before and after nested macros, shadow chains of 2..4 map levels with every assignment of the three names to the levels and a null element at each level in turn.",
+ "C10": "every list-valued macro chained as the range of every macro (same / different variable name); list-literal ranges of observable or variable-reading element expressions (value + visit log, outer name re-read after the macro); constant bodies over lists and maps (variable and literal ranges). Also: twin-elements (lists <= 3 over 1, 1u, 1.0, 2, 0.0, -0.0, [3], [3.0] x type-sensitive bodies); observable bodies that ignore the iteration variable (constant-argument logging calls, an erroring body).",
+ "C11": "(A) value pool {1, 1u, 2, null} (equal-but-distinguishable twins; a name bound to null is bound), up to three nested child scopes; (B) two program profiles (ints; twins whose outer bindings equal the iterated elements in another numeric type), names read before and after nested macros, shadow chains of 2..4 map levels with every assignment of the three names to the levels and a null element at each level in turn. Also: chained scopes ({map, filter} as the range of every macro form x both iteration variables x one further name read in each body).",
  "C12": "U+000D in the character alphabet; every pair and triple of 13 escape atoms (7 invalid); every string of length 3..5 over {backslash, ', \", a} in the 8 raw styles.",
  "C13": "bit-pattern double sets in thorough; first values beyond each range.",
- "C14": "keys spelled like built-ins (`size`), keys supplied as variables; entry values of every falsy kind next to truthy ones; aliasing family: one variable (incl. [NaN], {'a': NaN}) read on both sides of in / contains / ==.",
- "C15": "every unit x 1..45 fraction digits x 5 digit patterns x 4 surroundings against an independent long-multiplication reference (beyond 18 digits the value of the first 18 digits is accepted too).",
+ "C14": "keys spelled like built-ins (`size`), keys supplied as variables; entry values of every falsy kind next to truthy ones; aliasing family: one variable (incl. [NaN], {'a': NaN}) read on both sides of in / contains / ==. Also: concat-ownership (every mix of context variable / literal / temporary operands).",
+ "C15": "every unit x 1..45 fraction digits x 5 digit patterns x 4 surroundings against an independent long-multiplication reference (beyond 18 digits the value of the first 18 digits is accepted too). Strings outside the strict grammar but inside Go's (leading +, .5s, 1.s, 0, micro-sign units) may be rejected, but if accepted must denote Go's value.",
  "C16": "accessors also on host-supplied timestamp values; `d + t` and `d + (t - d)` checked for exact instant and preserved offset; chrono's limit instants in extreme offsets.",
- "C17": "leaves whose Serialize impl asks is_human_readable() (std::net::IpAddr); maps written through serialize_entry; a repeated key keeps the last value as in serde_json.",
+ "C17": "leaves whose Serialize impl asks is_human_readable() (std::net::IpAddr); maps written through serialize_entry; a repeated key keeps the last value as in serde_json. The generated struct / struct-variant impls call skip_field (a skipped field leaves no trace).",
  "C18": "bytes 0..=255 and every padding length.",
- "C19": "153 sibling-literal logic templates; leading-dot names; a name `w` used both as variable and as function, contexts define it as variable / function / both / neither (128 contexts).",
- "C20": "289 generated signatures incl. This<T> behind other parameters, two This<T>, optional receivers, closures reporting ftx.this; a map receiver keyed by every function name; host functions returning their receiver (literal / nested / variable receivers).",
+ "C19": "153 sibling-literal logic templates; leading-dot names; a name `w` used both as variable and as function, contexts define it as variable / function / both / neither (128 contexts). The second variable is spelled `_v2` (leading underscore).",
+ "C20": "289 generated signatures incl. This<T> behind other parameters, two This<T>, optional receivers, closures reporting ftx.this; a map receiver keyed by every function name; host functions returning their receiver (literal / nested / variable receivers). Every signature is also registered under the operator-like name `_hf` with an unbound identifier argument; failing-receiver family (6 failing receivers x 21 receiver-style calls: the call fails, nothing is invoked).",
 }
 MARK = " Added after the seeded rounds (DESIGN §7): "
 c = json.load(open('/verif/checks.json'))
@@ -46,7 +46,7 @@ if '--bounds' in sys.argv:
         cov = e.get('coverage', {})
         subs = cov.get('subspaces') or {}
         top = sorted(subs.items(), key=lambda kv: -kv[1])[:6]
-        txt = f"measured: {f"{cov.get('states'):,}"} cases in {len(subs)} sub-spaces (largest: " + ", ".join(f"{n} {v:,}" for n, v in top) + ")"
+        txt = f"measured: {cov.get('states'):,} cases in {len(subs)} sub-spaces (largest: " + ", ".join(f"{n} {v:,}" for n, v in top) + ")"
         b = c[k]['bounds'].get(tier, '')
         if ' || measured:' in b:
             b = b[:b.index(' || measured:')]
